@@ -108,6 +108,12 @@ def writeback_conservation(run: Run, model: PyModel, rid: str) -> None:
             want_text = "\n".join(want)
             for v, trace, imprecise in res:
                 n += 1
+                if isinstance(v, Raised) and not imprecise and v.exc in ("IndexError", "KeyError", "TypeError", "AttributeError", "ValueError", "AssertionError"):
+                    # a concrete page, nothing abstract in the run: the handler really dies here (the message bus swallows it and the file never receives the ZID / date)
+                    run.refuted(rid, "write-back", f"{fi.name}, {label}: raises {v.exc}", f"write-back ({fi.name}) of a page ({label}) dies with an internal {v.exc}: the lines it addresses are not the note's lines "
+                                "(line_no counts '\\n'-separated lines only), the event handler's exception is swallowed by the message bus and the file never receives what the index already holds",
+                                file=FILE_H, node=fi.node)
+                    continue
                 if isinstance(v, Raised) or imprecise:
                     run.undecided(rid, fi.name, f"{label}: " + (f"raises {v.exc}" if isinstance(v, Raised) else "; ".join(imprecise[:2])))
                     continue
